@@ -539,7 +539,7 @@ theorem model_follows_table :
     (∀ r ∈ repairedTable, (!r.safe && r.readBack) = false) := by decide
 
 /-- calls whose reads of the scratch cells are dead: flat `OneOf` / `NotField` (option errors are swallowed, option results
-    dropped) -/
+    dropped, the value is stored under the wrapper's own name) -/
 def deadReads : Call → Bool
   | .wrap .oneOf _ _ _ => true
   | .wrap .notField _ _ _ => true
@@ -549,7 +549,9 @@ def deadReads : Call → Bool
     rename option Field objects that other threads (and other fields) use: nothing ever reads the written name back
     effectively.  (Their rows stay in the table - the writes ARE there - but by themselves they cannot change a result;
     what the harness attributes to these sites is the race on the OWNER's name when the wrapper is nested under a
-    homogeneous collection, i.e. the extract_field_value finding.) -/
+    homogeneous collection, i.e. the extract_field_value finding: `counter_wrong_field_named_nested_oneOf`,
+    `counter_wrong_element_nested_notField`.)  NOT true of the store-through variant of tree b6495fe:
+    `counter_missing_key_oneof_through`. -/
 theorem flat_oneOf_notField_linearizable (sh : Shared) (calls : List Call) (h : ∀ c ∈ calls, deadReads c = true) :
     Linearizable sh (calls.map Call.prog) := by
   apply conflict_free_linearizable
@@ -568,6 +570,8 @@ theorem flat_oneOf_notField_linearizable (sh : Shared) (calls : List Call) (h : 
       | notField => simp [Call.prog, notField_reads] at hr
       | allOf => simp [deadReads] at hd
       | anyOf => simp [deadReads] at hd
+      | allOfThrough => simp [deadReads] at hd
+      | oneOfThrough => simp [deadReads] at hd
     | _ => simp [deadReads] at hd
 
 /-- non-vacuity: two `OneOf` fields sharing their option objects, fully interleaved -/
@@ -575,6 +579,21 @@ theorem flat_oneOf_example :
     resultAt (run (Cfg.init sh0 [progOneOf (.const "a") 5 [(0, true), (1, false)], progOneOf (.const "b") 7 [(0, true), (1, false)]])
       [0,1,0,1,0,1,0,1,0,1,0,1]) 0 = some (.ok [5]) ∧
     deadReads (.wrap .oneOf "a" 5 [(0, true), (1, false)]) = true := by decide
+
+/-- the store-through `OneOf.__set__` of tree b6495fe (fix 95931f6: the matched option stores the value; replaced by
+    89fd84a), one option Field instance used by `a = OneOf[opt, String]` and `b = OneOf[opt, String]`: thread 0 (`x.a = 5`)
+    is pre-empted before `matched_field.__set__(instance, value)`; the value lands under `b` and
+    `instance.__dict__["a"]` raises KeyError.  (The repair of C19 had made a dead write live.) -/
+theorem counter_missing_key_oneof_through :
+    resultAt (run (Cfg.init sh0 [progOneOfThrough (.const "a") 5 [(0, true), (1, false)],
+        progOneOfThrough (.const "b") 7 [(0, true), (1, false)]]) [0,0,0,0,1,0,0]) 0 = some (.raised (.missing "a")) ∧
+    sequentialResult sh0 (progOneOfThrough (.const "a") 5 [(0, true), (1, false)]) = some (.ok [5]) := by decide
+
+/-- the store-through `AllOf.__set__` of tree b6495fe: same KeyError -/
+theorem counter_missing_key_allof_through :
+    resultAt (run (Cfg.init sh0 [progAllOfThrough (.const "a") 5 [(0, true), (1, true)],
+        progAllOfThrough (.const "b") 7 [(0, true), (1, true)]]) [0,0,0,0,1,0,0]) 0 = some (.raised (.missing "a")) ∧
+    sequentialResult sh0 (progAllOfThrough (.const "a") 5 [(0, true), (1, true)]) = some (.ok [5]) := by decide
 
 /-- the full statement is false -/
 theorem C20_statement_false : ¬ C20_statement := by
@@ -597,8 +616,7 @@ def knownFindingKeys : List String := [
   "shared-_name:multified_wrappers.py:AllOf.__set__",
   "shared-_name:multified_wrappers.py:AnyOf.__set__",
   "shared-_name:multified_wrappers.py:OneOf.__set__",
-  "shared-_name:multified_wrappers.py:NotField.__set__",
-  "shared-<container>:structures.py:UniqueMixin.__manage_uniqueness_for_field__"
+  "shared-_name:multified_wrappers.py:NotField.__set__"
 ]
 
 /-- does the current working tree still have a racy validator site?  (`false` ⇒ `no_racy_site_linearizable` applies to
